@@ -15,7 +15,7 @@ class HarnessError(Exception):
     pass
 
 
-CHILD_TIMEOUT = float(os.environ.get("BBSIM_CHILD_TIMEOUT", "30"))
+CHILD_TIMEOUT = float(os.environ.get("BBSIM_CHILD_TIMEOUT", "90"))
 
 
 def fork_run(fn, *args, timeout=None, **kwargs):
